@@ -42,16 +42,6 @@ theorem C20_effects_cases (reg : Registry) (builtins : Scope) (ns : List Scope) 
   have h := C20_effects reg builtins ns prog e he
   cases e <;> simp_all [EffectOK]
 
-theorem initHeap_user (builtins : Scope) (ns : List Scope) (i : Nat) (hi : i < ns.length) :
-    (initState builtins ns).heap.get (3 + i) = ns.getD i {} := by
-  have h1 : (initState builtins ns).heap
-      = [builtins, ({ items := [("__file__".toList, Val.none)] } : Scope), ({} : Scope)] ++ (ns ++ [({} : Scope)]) := by
-    simp [initState]
-  rw [h1]
-  simp only [Heap.get, List.getD_eq_getElem?_getD]
-  rw [List.getElem?_append_right (by simp)]
-  simp [List.getElem?_append_left hi]
-
 /-- **C20_readonly.**  After the analysis every caller namespace (heap cells 3 … 3+k-1), the builtins namespace
     (cell 0) and `_builtins2` (cell 1) are exactly what was passed in: all writes went to the private top scope
     pushed by `__init__`, to scopes created during the visit, or to `_class_delayed`. -/
